@@ -99,6 +99,8 @@ def showOptRes : Option Lib.Res → String
 /-- the hand model of the xray-written library functions (`XrayModel/IntLib.lean`) -/
 def intLibEngine (f : String) (vs : List Int) : Option String :=
   match f, vs with
+  | "pow_nc", [la, lb, a, b] =>   -- operands forced into the `long` representation where asked (non-canonical)
+    some (showR (LB.pow (if la = 1 then LB.long a else LB.ofInt a) (if lb = 1 then LB.long b else LB.ofInt b)))
   | "lib.abs", [a] => some (showLB (LB.ofInt (Lib.abs a)))
   | "lib.sign", [a] => some (showLB (LB.ofInt (Lib.sign a)))
   | "lib.gcd", [a, b] => some (showOptInt (Lib.gcd a b))
